@@ -201,6 +201,10 @@ impl PathParser {
                 self.update_position(self.start_pos.ok_or_else(|| {
                     SvgdxError::InvalidData("Cannot 'z' without start position".to_owned())
                 })?);
+                // closepath takes no arguments, so it cannot be implicitly repeated;
+                // whatever follows must be a new command (otherwise no input would be
+                // consumed and evaluate() would never terminate).
+                self.command = None;
             }
             'C' => {
                 let _cp1 = self.tokens.read_coord()?; // control point 1
